@@ -162,8 +162,7 @@ class Recorder:
                 ta = tn.tag_map.get(tn.site_tag(*k), ())
                 tb = tn.tag_map.get(tn.site_tag(*k2), ())
                 sz, n = U.group_bond(tn, ta, tb)
-                if n:
-                    bonds.append([idx[k], idx[k2], sz])
+                bonds.append([idx[k], idx[k2], sz])
         rec = {"ev": "handover", "what": "hotrg", "side": direction, "blocks": blocks, "bonds": bonds}
         if lat.watch_value:
             dang, v = U.tn_value(tn)
@@ -229,9 +228,9 @@ def observe_boundary(tn, geo, ranges, ax):
             k2 = tuple(k2)
             if k2 not in idx:
                 continue
+            # (a bond of size one may have been squeezed away: the pair is still a compressed bond, of size 1)
             sz, n = U.group_bond(tn, groups[k] - groups[k2], groups[k2] - groups[k])
-            if n:
-                bonds.append([idx[k], idx[k2], sz])
+            bonds.append([idx[k], idx[k2], sz])
     return blocks, bonds
 
 
@@ -361,7 +360,7 @@ class Lattice:
             return res, ret, base
         if ret["exc"] == "":
             try:
-                if want == "tn" or hasattr(res, "tensor_map"):
+                if hasattr(res, "tensor_map"):
                     dang, v = U.tn_value(res)
                     if dang:
                         v = None
@@ -386,7 +385,7 @@ class Lattice:
 # =============================================================================== environments
 def env_record(lat, base, cap, env, claim_sites, key, absorbed, dense):
     """one stored environment closed with the part of the lattice it excludes (plain numpy)"""
-    rec = dict(base, ev="env", cap=cap, exc="", ongrid=True, closed=[0, 0], dangling=0, cover=[], bonds=[])
+    rec = dict(base, ev="env", cap=cap, exc="", ongrid=True, closedval=[0, 0], dangling=0, cover=[], bonds=[])
     rec.update(key)
     geo, nl = lat.geo, lat.nl
     cover = []
@@ -409,7 +408,7 @@ def env_record(lat, base, cap, env, claim_sites, key, absorbed, dense):
         rec["ongrid"] = False
     else:
         e = float(getattr(env, "exponent", 0.0) or 0.0) + float(getattr(lat.tn, "exponent", 0.0) or 0.0)
-        U.put_value(rec, "closed", v * 10.0 ** e)
+        U.put_value(rec, "closedval", v * 10.0 ** e)
     if absorbed >= 2 and not dense:
         tids = list(env.tensor_map)
         for x in range(len(tids)):
